@@ -66,6 +66,41 @@ def base_path(p):
     return p
 
 
+def canon(j):
+    """`terms.canon`, idempotent: C05 feeds values read from the run folder (`terms.enc` of what the pickles hold) back INTO the model
+    (`map.run_on` on an abstracted folder), so a model answer may contain the already expanded image `arr [2] [proj t [0], proj t [1]]` of a
+    sequence-valued interpreted function (`terms.SEQ_SUFFIX`) next to its free term `t`.  `terms.canon` would expand the `t` inside such a
+    `proj` a second time; here `proj t ix` of a sequence-valued call keeps its base plain (under the interpretation element `i` of the
+    sequence `t` IS `proj t [i]`; functions with an internal shape, the only native source of `proj`, are never sequence-valued).
+    Values of the implementation side (already `terms.enc`'d) are fixed points."""
+    if isinstance(j, dict):
+        is_c, c = terms._const_call(j)
+        if is_c:
+            return terms.enc(c)
+        if terms._seq_call(j):
+            base = _canon_plain(j)
+            return {"arr": [[2], [{"proj": [base, [0]]}, {"proj": [base, [1]]}]]}
+        if "f" in j:
+            return _canon_plain(j)
+        if "t" in j:
+            return {"arr": [[len(j["t"])], [canon(x) for x in j["t"]]]}
+        if "arr" in j:
+            return {"arr": [j["arr"][0], [canon(x) for x in j["arr"][1]]]}
+        if "pick" in j:
+            return {"pick": [canon(j["pick"][0]), j["pick"][1]]}
+        if "proj" in j:
+            b = j["proj"][0]
+            return {"proj": [_canon_plain(b) if terms._seq_call(b) else canon(b), j["proj"][1]]}
+        return j
+    return j
+
+
+def _canon_plain(j):
+    if "f" in j:
+        return {"f": j["f"], "k": sorted(([k, canon(x)] for k, x in j["k"]), key=lambda kv: kv[0])}
+    return {"pick": [_canon_plain(j["pick"][0]), j["pick"][1]]}
+
+
 TORN = "$torn"      # what `decode` answers for a file that does not decode (a stored None decodes to the value JSON `None`)
 
 
@@ -111,7 +146,7 @@ def canon_real(events, folder):
         elif e[0] == "close":
             mp = model_path(rel)
             v = decode(mp, open_.pop(e[1], b""))
-            out.append(["write", mp, TORN if v == TORN else terms.canon(v)])
+            out.append(["write", mp, TORN if v == TORN else canon(v)])
         elif e[0] == "rename":
             out.append(["rename", model_path(rel), model_path(os.path.relpath(e[2], folder))])
         elif e[0] == "unlink":
@@ -141,14 +176,14 @@ def canon_model(events, dirs0=()):
                 j += 1
             if j >= len(events) or events[j][0] != "commit" or events[j][1] != e[1]:
                 raise Unmodelled("model write group without commit")
-            out.append(["write", e[1], terms.canon(events[j][2])])
+            out.append(["write", e[1], canon(events[j][2])])
             i = j
         elif e[0] == "rename":
             out.append(["rename", e[1], e[2]])
         elif e[0] == "unlink":
             out.append(["unlink", e[1]])
         elif e[0] == "call":
-            out.append(["call", e[1], sorted(([k, terms.canon(v)] for k, v in e[3]), key=lambda kv: kv[0])])
+            out.append(["call", e[1], sorted(([k, canon(v)] for k, v in e[3]), key=lambda kv: kv[0])])
         elif e[0] == "rmtree":
             out.append(["rmtree"])
         i += 1
